@@ -31,6 +31,10 @@ pub struct Caller {
     /// shared handle made when this caller arrives (1 and 2 only in shared-handle scenarios)
     #[serde(default)]
     pub handle: u8,
+    /// keep the resolved call future alive (polled by reference) this long before dropping it:
+    /// the call is over when it resolves, not when its future object goes away
+    #[serde(default)]
+    pub hold_finished_ms: u64,
 }
 
 #[derive(Clone, Debug, Serialize, Deserialize, PartialEq)]
@@ -96,6 +100,7 @@ pub fn gen(rng: &mut Rng) -> Scn {
             hold_unpolled_ms: if faulty && rng.chance(1, 10) { *rng.pick(&[1u64, 5, 10, 20]) } else { 0 },
             svc: if two_services { rng.below(2) as u8 } else { 0 },
             handle: if shared_handle { *rng.pick(&[1u8, 1, 2]) } else { 0 },
+            hold_finished_ms: if rng.chance(1, 8) { *rng.pick(&[5u64, 20, 60]) } else { 0 },
         });
     }
     let pre = if max_wait.is_some() { *rng.pick(&[0u8, 0, 0, 1, 2, 3, 4]) } else { *rng.pick(&[0u8, 0, 0, 4]) };
@@ -122,7 +127,7 @@ pub fn valid(s: &Scn) -> bool {
         && !s.callers.is_empty()
         && s.callers.iter().all(|c| c.start_ms <= 500 && c.beh.lat_ms <= 200 && c.beh.yields <= 4)
         && s.max_wait.map(|w| w <= 100 || w == u64::MAX).unwrap_or(true)
-        && s.callers.iter().all(|c| c.hold_unpolled_ms <= 50)
+        && s.callers.iter().all(|c| c.hold_unpolled_ms <= 50 && c.hold_finished_ms <= 100)
         && (s.probes == 0 || (s.probe_at >= 900 && s.probe_at <= 2000 && s.probes == if s.max == u32::MAX { 3 } else { s.max + 1 }))
         && s.knobs.jumps.iter().all(|j| j.0 <= 500 && j.1 <= 200)
         && s.knobs.jumps.len() <= 3
@@ -222,6 +227,7 @@ pub fn run(s: &Scn, ctx: &mut RunCtx, prefix: &'static str) -> RunOutput {
             } else {
                 (scn.probe_at, crate::exec::Cancel::Never, false, 0, 0, 0, if scn.shared_handle { 1 } else { 0 })
             };
+            let hold_finished = if i < n { scn.callers[i].hold_finished_ms } else { 0 };
             let sh = shared[which as usize].clone();
             let mut early = if handle == 0 { Some(sh.borrow().clone()) } else { None };
             for _ in 0..depth {
@@ -260,7 +266,16 @@ pub fn run(s: &Scn, ctx: &mut RunCtx, prefix: &'static str) -> RunOutput {
                             }
                             // arrival = the first poll of the call future
                             world::note("arrive", i as i64, which as i64);
-                            map_out(f.await)
+                            let mut f = Box::pin(f);
+                            let r = f.as_mut().await;
+                            // the call is over here, whatever happens to the future object
+                            world::note("done", i as i64, 0);
+                            if hold_finished > 0 {
+                                world::fault("hold_finished_future");
+                                tokio::time::sleep(Duration::from_millis(hold_finished)).await;
+                            }
+                            drop(f);
+                            map_out(r)
                         }
                     }
                 })
@@ -297,6 +312,9 @@ pub fn run(s: &Scn, ctx: &mut RunCtx, prefix: &'static str) -> RunOutput {
                         }
                         Ev::TaskEnd { task, .. } => {
                             started.remove(task);
+                        }
+                        Ev::Note { tag: "done", a, .. } => {
+                            started.remove(&(*a as u32));
                         }
                         Ev::InnerCall { req, .. } => {
                             started.remove(req);
@@ -368,6 +386,8 @@ pub fn run(s: &Scn, ctx: &mut RunCtx, prefix: &'static str) -> RunOutput {
             );
         }
     }
+    // the instant / sequence number at which caller i's call resolved (its task may live on)
+    let done: Vec<Option<(u64, u64)>> = (0..rep.tasks.len()).map(|i| crate::logq::notes(&log, "done").find(|(_, a, _)| *a == i as i64).map(|(r, _, _)| (r.seq, r.t_us))).collect();
     let first_poll: Vec<Option<(u64, u32)>> = arrive.iter().map(|a| a.map(|(s, _, st)| (s, st))).collect();
     let arr_us = |i: usize| arrive[i].map(|a| a.1).unwrap_or(0);
     for (i, t) in rep.tasks.iter().enumerate() {
@@ -386,6 +406,7 @@ pub fn run(s: &Scn, ctx: &mut RunCtx, prefix: &'static str) -> RunOutput {
                 && svc_of(j) == k
                 && arrive[j].map(|a| a.0 < fp_seq).unwrap_or(false)
                 && (u.end_seq == 0 || u.end_seq > fp_seq)
+                && done[j].map(|d| d.0 > fp_seq).unwrap_or(true)
                 && !calls
                     .iter()
                     .any(|c| c.svc == k && c.req == j as u32 && c.start_seq < fp_seq)
@@ -426,10 +447,11 @@ pub fn run(s: &Scn, ctx: &mut RunCtx, prefix: &'static str) -> RunOutput {
                             ),
                             Some(mw) => {
                                 let want = arr_us(i) + mw * 1000;
+                                let end_us = done[i].map(|d| d.1).unwrap_or(t.end_us);
                                 let ok = if total_jump == 0 {
-                                    t.end_us == want
+                                    end_us == want
                                 } else {
-                                    t.end_us >= want && t.end_us <= want + total_jump * 1000
+                                    end_us >= want && end_us <= want + total_jump * 1000
                                 };
                                 if !ok {
                                     world::violation(
@@ -437,7 +459,7 @@ pub fn run(s: &Scn, ctx: &mut RunCtx, prefix: &'static str) -> RunOutput {
                                         "",
                                         format!(
                                             "caller {} arrived at {}us, max_wait {}ms, rejected at {}us",
-                                            i, arr_us(i), mw, t.end_us
+                                            i, arr_us(i), mw, end_us
                                         ),
                                     );
                                 }
@@ -565,6 +587,7 @@ pub fn run(s: &Scn, ctx: &mut RunCtx, prefix: &'static str) -> RunOutput {
         if let Some(o) = &t.out {
             if o.err == Some("Timeout")
                 && calls.iter().any(|c| c.end_us == Some(t.end_us) && c.end_seq.is_some())
+                && true
             {
                 world::probe("release_and_timeout_same_instant");
                 break;
